@@ -63,6 +63,8 @@ type SessionSpec struct {
 	// reading peer uses a small receive buffer and starts reading PeerDelayMs late
 	Bulk        int `json:"bulk,omitempty"`
 	PeerDelayMs int `json:"peer_delay_ms,omitempty"`
+	// BulkSize: size of each bulk payload (0 = 64 KiB); larger ones are single frames above 64 KiB
+	BulkSize int `json:"bulk_size,omitempty"`
 	// CloseErr: the connection's Close() closes it but returns an error (net.Pipe transport only)
 	CloseErr bool `json:"close_err,omitempty"`
 	// ExitCloses: the handler's OnExit calls s.Close() itself (a harmless, common way to make sure the session is closed)
@@ -106,13 +108,40 @@ func GenSess(t *rapid.T) CaseSess {
 		if rapid.IntRange(0, 5).Draw(t, "bulk") == 0 {
 			s.Bulk = rapid.SampledFrom([]int{16, 64}).Draw(t, "nbulk")
 			s.PeerDelayMs = rapid.SampledFrom([]int{0, 20, 60}).Draw(t, "peerdelay")
+			s.BulkSize = genBulkSize(t, &s)
 		}
 		for j, k := 0, rapid.SampledFrom([]int{0, 0, 1, 2}).Draw(t, "nlate"); j < k; j++ {
 			s.LateSends = append(s.LateSends, rapid.SampledFrom([]int{1, 64}).Draw(t, "latesize"))
 		}
 		c.Sessions = append(c.Sessions, s)
 	}
+	// one case in six is built around the flush clause: no timeouts, mostly TCP, and the first session ends by a
+	// local Close only, with a reading peer and bulk data still queued
+	if rapid.IntRange(0, 5).Draw(t, "flushfocus") == 0 {
+		c.ShortRead, c.ShortWrite = false, false
+		c.Transport = rapid.SampledFrom([]string{"tcp", "tcp", "pipe"}).Draw(t, "focustransport")
+		s := &c.Sessions[0]
+		s.Events, s.PeerReads, s.FailAt, s.FailKind = []string{"local-close"}, true, 0, ""
+		for i := range s.Sends {
+			if s.Sends[i] == 0 {
+				s.Sends[i] = 1
+			}
+		}
+		s.Bulk = rapid.SampledFrom([]int{4, 16, 64}).Draw(t, "focusbulk")
+		s.BulkSize = genBulkSize(t, s)
+		s.PeerDelayMs = rapid.SampledFrom([]int{0, 20, 60}).Draw(t, "focusdelay")
+		s.PeerWrites = rapid.SampledFrom([]int{0, 0, 0, 1}).Draw(t, "focuspeerwrites")
+	}
 	return c
+}
+
+// genBulkSize: mostly 64 KiB payloads; sometimes fewer, larger frames (the total stays within 4 MiB).
+func genBulkSize(t *rapid.T, s *SessionSpec) int {
+	sz := rapid.SampledFrom([]int{0, 0, 64<<10 + 1, 200000, 1 << 20, 3 << 20}).Draw(t, "bulksize")
+	for sz > 0 && s.Bulk > 1 && s.Bulk*sz > 4<<20 {
+		s.Bulk /= 2
+	}
+	return sz
 }
 
 // countingConn wraps the connection handed to the session.
@@ -447,11 +476,16 @@ func ExecSess(c CaseSess) *vkit.Result {
 		}
 	}
 	for _, r := range runs {
-		if r.spec.Bulk < 0 || r.spec.Bulk > 256 || r.spec.PeerDelayMs < 0 || r.spec.PeerDelayMs > 1000 {
+		if r.spec.Bulk < 0 || r.spec.Bulk > 256 || r.spec.PeerDelayMs < 0 || r.spec.PeerDelayMs > 1000 || r.spec.BulkSize < 0 || r.spec.BulkSize > 8<<20 {
 			continue
 		}
+		bsz := 64 << 10
+		if r.spec.BulkSize > 0 {
+			bsz = r.spec.BulkSize
+			res.Class("bulk-frames-above-64KiB")
+		}
 		for j := 0; j < r.spec.Bulk; j++ {
-			p := payload(r.idx, 1000+j, 64<<10)
+			p := payload(r.idx, 1000+j, bsz)
 			if err := r.sess.Send(p); err == nil {
 				r.accepted = append(r.accepted, p)
 			}
@@ -667,6 +701,9 @@ func ExecSess(c CaseSess) *vkit.Result {
 		}
 		if e.flush {
 			res.Class("flush-clause-applies")
+			if c.Transport == "tcp" && r.spec.Bulk > 0 {
+				res.Class("flush-clause-applies/tcp-bulk")
+			}
 			if !bytes.Equal(got, want) && c.Transport == "tcp" && r.spec.PeerWrites > 0 && (r.peerErr != nil || r.peerWriteErr != nil) {
 				// finding F20 (known_findings.jsonl): the peer had written bytes the handler had not consumed when the
 				// session closed the socket; the kernel then resets the connection and the flushed tail is lost
